@@ -110,6 +110,11 @@ fn main() {
             }
         }
     }
+    // Thorough batches are bounded in wall-clock time as well as in runs (the evidence records the
+    // runs actually made); an explicit --max-wall overrides the bound.
+    if opts.tier == Tier::Thorough && opts.max_wall_s.is_none() && opts.replay.is_none() {
+        opts.max_wall_s = Some(3000.0);
+    }
     let code = dispatch!(id.as_str(), mode, &opts, {
         "C01" => c01::C01,
         "C02" => c02::C02,
